@@ -161,7 +161,8 @@ detail::temporary_allocator_dtor_t::temporary_allocator_dtor_t() noexcept
 
 detail::temporary_allocator_dtor_t::~temporary_allocator_dtor_t() noexcept
 {
-    if (--nifty_counter == 0u && temp_stack)
+    // also if this thread itself never used a temporary stack (or gave it up again)
+    if (--nifty_counter == 0u)
         temporary_stack_list_obj.destroy();
 }
 
